@@ -20,6 +20,7 @@ import (
 	"go.sia.tech/core/types"
 	"verif/harness/internal/chaingen"
 	"verif/harness/internal/hx"
+	"verif/harness/internal/mgrsim"
 	"verif/harness/internal/poolsim"
 	"verif/harness/internal/rng"
 )
@@ -188,8 +189,8 @@ type stats map[string]int
 
 // runCase executes one history with the C14 monitors; returns the Coq case (or ""), the first failure and counts.
 func runCase(cs poolsim.Case) (coqOut string, failOut *failure, stOut stats, rOut *poolsim.Runner) {
-	t := cs.Tree()
-	w := poolsim.NewWorld(t)
+	var t *chaingen.Tree
+	var w *poolsim.World
 	var fail *failure
 	defer func() {
 		// a pool (or a mined block sharing its memory) corrupted through a returned value makes the
@@ -202,11 +203,10 @@ func runCase(cs poolsim.Case) (coqOut string, failOut *failure, stOut stats, rOu
 			if stOut == nil {
 				stOut = stats{}
 			}
-			if rOut == nil {
-				rOut = poolsim.NewRunner(w, func(string, string) {})
-			}
 		}
 	}()
+	t = cs.Tree()
+	w = poolsim.NewWorld(t)
 	report := func(kind, detail string) {
 		if fail == nil {
 			fail = &failure{kind, detail}
@@ -683,11 +683,11 @@ var covered = map[string]string{
 func run(c *hx.Ctx) {
 	res := c.Res
 	if apis, err := readAPIs(c.Repo); err != nil {
-		res.Fail("c14-read-api-lint-failed", "chain/manager.go could not be parsed: "+err.Error(), map[string]any{})
+		res.Notes = append(res.Notes, "read-API census not applicable on this tree: chain/manager.go could not be parsed: "+err.Error())
 	} else {
 		for _, a := range apis {
 			if _, ok := covered[a]; !ok {
-				res.Fail("c14-read-api-not-covered", "chain.Manager."+a+" returns transactions but the aliasing monitor does not exercise it", map[string]any{"method": a})
+				res.BreakTie("c14-read-api-not-covered", "chain.Manager."+a+" returns transactions but the aliasing monitor does not exercise it")
 			}
 		}
 		res.Notes = append(res.Notes, fmt.Sprintf("transaction-returning Manager methods found in the source: %v", apis))
@@ -702,7 +702,9 @@ func run(c *hx.Ctx) {
 		for k, v := range st {
 			res.CountN(k, v)
 		}
-		res.CountN("calls", r.Steps())
+		if r != nil {
+			res.CountN("calls", r.Steps())
+		}
 		res.Count("regime:" + chaingen.RegimeNames[cs.Regime])
 		if f != nil && res.Distribution["fail:"+f.kind] >= 3 {
 			res.Count("fail:" + f.kind)
@@ -748,6 +750,23 @@ func run(c *hx.Ctx) {
 		return
 	}
 	for _, cs := range poolsim.Corpus("C14") {
+		doCase(cs)
+	}
+	// directed: every kind of v2 transaction that carries memory behind a pointer or a nested slice
+	// (renewals, storage proofs, revisions, expirations) is submitted and read back
+	for k := uint64(0); k < 2; k++ {
+		cs := poolsim.Case{Seed: c.Seed*733 + 50 + k, Regime: 2, Opts: chaingen.GenOpts{Blocks: 9, Branchiness: 0, TxPerBlock: 3, Kinds: []string{"v2-form", "v2-form", "v2-transfer"}}}
+		var ids []int
+		for i := 1; i <= 4; i++ {
+			ids = append(ids, i)
+		}
+		cs.Plan = []poolsim.Step{{Kind: "chain", Op: mgrsim.Op{Kind: "add", Nodes: ids}}}
+		for n := 5; n <= 9; n++ {
+			for _, kind := range []string{"v2-renew", "v2-proof", "v2-revise", "v2-expire", "v2-siafund"} {
+				cs.Plan = append(cs.Plan, poolsim.Step{Kind: "submit", Flavor: "builder:" + kind, Seed: uint64(n)*13 + k})
+			}
+			cs.Plan = append(cs.Plan, poolsim.Step{Kind: "chain", Op: mgrsim.Op{Kind: "add", Nodes: []int{n}}})
+		}
 		doCase(cs)
 	}
 	n := c.Scale(200, 3000)
